@@ -225,7 +225,7 @@ func init() {
 	parserJudges["C19"] = judgeC19
 	register(&Check{
 		ID:        "C19",
-		QuickSecs: 900, ThoroSecs: 1500,
+		QuickSecs: 900, ThoroSecs: 3000,
 		Rule: "input-space exploration at byte level: tokens = all byte strings of length <= 3 over 13 bytes {- = a b . 1 space newline : / 0xC3 0xA9 0xFF} (2380) plus 80 special tokens (10^4-byte and deeply bundled tokens, int ranges with spans <= 10^4 including ranges ending at the int64 limits, numeric limits, format verbs, NUL); " +
 			"every single token x 18 configurations (plus 3 warn-mode configurations in which every Write on Writer fails), every pair over a subset of Np tokens, every triple over Nt tokens, the same strings as COMP_LINE (bash and zsh, both argument conventions) and as environment values of bound options; a family of definitions in which each of 15 texts (long, multibyte, combining, wide, format verbs, blanks, newline) takes each role (command name, option name, alias, argument name, description, synopsis argument, program name) x 3 modes, each with 20 command lines, 9 completion lines and Help() of every level; the command-tree shapes of C10 (depth <= 2, wrappers, commands and root without a function, with and without the built-in help) on every command line of length <= 2 over 16 tokens; Parse, Dispatch and Help run under recover with a budget of 10^6 loop iterations per call (instrumented loops); " +
 			"oracle: no panic, budget never exhausted, a failed Parse returns nil remaining and a non-nil error, completion leaves through the exit path; distinct_nontrivial = distinct inputs executed",
